@@ -36,7 +36,7 @@ DerivedAns(e) ==
     CASE e.op \in {"lcp", "lcp_at"} -> LcpEventAns(e)
       [] e.op = "search"            -> SearchEventAns(e)
       [] e.op = "longest"           -> LongestAns(e.inputs, e.pos, e.res, e.minl)
-      [] e.op = "eqr"               -> EqRangeAns(e.p, e.lo, e.hi, e.chs, e.res)
+      [] e.op = "eqr"               -> EqRangesAns(e.chs, e.items)
       [] OTHER                      -> TRUE
 
 (* C12-KF1: the SA-IS construction (SuffixArrayAlgorithm::SAIS; also what Adaptive selects from    *)
